@@ -167,6 +167,24 @@ def r09_2(ctx):
                 res.add(("other", lab(v)))
         return fi, res
 
+    # the folders act on constant expressions only: with one operand that is not a literal nothing is folded - x + 0, x * 1, 0 * x ...
+    # are no exceptions (the usual arithmetic conversions with the literal's type still apply, and x may carry a pending effect)
+    for q, op_tok, ops in (("simplify_arithmetic_expr", "ARITH_OP", ("+", "-", "*", "/", "%")), ("simplify_compare_expr", "CMP_OP", ("<", "==", ">="))):
+        kept = []
+        for op in ops:
+            for lit, suffix_t in ((0, (False, 32)), (1, (True, 64)), (0, (True, 32)), (1, (False, 32)), (7, (True, 32))):
+                for pos in (0, 2):
+                    r = Runner(idx, keep_real=(q,))
+
+                    def args(pos=pos, lit=lit, suffix_t=suffix_t, op=op):
+                        x = r.pure("x", vt=mk_vt("tx", True, 32), cls="Register")
+                        n_ = number(r, "n", lit, suffix_t[0], suffix_t[1])
+                        return [[x if pos == 0 else n_, Tok(op_tok, op), n_ if pos == 0 else x]]
+                    fi, outs = r.run(q, args, args_list=True)
+                    for o in outs:
+                        if o.kind != "raise" and o.value is not None:
+                            kept.append(f"{'x ' + op + ' ' + str(lit) if pos == 0 else str(lit) + ' ' + op + ' x'} ({tname(suffix_t)} literal) -> {lab(o.value)}")
+        ctx.check(f"{q} folds constant expressions only", not kept, "None (not folded) when an operand is not a literal", "; ".join(kept[:3]) or "never folds", fn_where(idx, fi))
     operands = O.FOLD_OPERANDS if ctx.env.tier == "thorough" else O.FOLD_OPERANDS_QUICK
     ctx.need(len(operands) >= 8, "oracle operand table too small")
     for op in ("+", "-", "*", "/"):
